@@ -1125,11 +1125,9 @@ class AstEval:
 
         decorators = [await self.aeval(dec) for dec in arg.decorator_list]
         if "__init__" in sym_table:
+            # without its own __init__ a class inherits the (wrapped) one of its bases, if any, in Python's lookup order
             sym_table["__init__evalfunc_wrap__"] = sym_table["__init__"]
             del sym_table["__init__"]
-        elif not any(hasattr(base, "__init__evalfunc_wrap__") for base in bases):
-            # without its own __init__ a class inherits the (wrapped) one of its bases, if any
-            sym_table["__init__evalfunc_wrap__"] = None
         cls = metaclass(arg.name, tuple(bases), sym_table, **keywords)
         if inspect.iscoroutine(cls):
             cls = await cls
